@@ -131,7 +131,7 @@ func c19Run(e *vh.Env, c c19Case, o *vh.Out) {
 		if c.Mode == "stop-only" {
 			sys.LB.Stop()
 		} else {
-			shutdownGracefully(sys.Srv, sys.LB, shutdownTimeout)
+			callShutdown(sys.Srv, sys.LB, shutdownTimeout)
 		}
 	}
 	var firstOnce sync.Once
